@@ -116,6 +116,10 @@ fn main() {
             families::curated_status(&args);
             return;
         }
+        "c16-fresh" => {
+            tokenlevel::c16_fresh_child(&args);
+            return;
+        }
         "c19big-child" => {
             tokenlevel::c19big_child(&args);
             return;
